@@ -200,7 +200,14 @@ def call_app(wsgi, query, ajax=False):
     try:
         body = b''.join(wsgi.application(environ, start_response)).decode('utf-8')
     except Exception as e:      # noqa: B902
-        return ('EXC', type(e).__name__, str(e)[:200])
+        # the innermost frame inside the repository names the call site of the failure
+        import traceback
+        site = ''
+        for fr in traceback.extract_tb(e.__traceback__):
+            fn = fr.filename.replace(os.sep, '/')
+            if '/stdnum/' in fn or fn.endswith('stdnum.wsgi'):
+                site = '%s:%s' % (fn.split('/stdnum/')[-1] if '/stdnum/' in fn else 'stdnum.wsgi', fr.name)
+        return ('EXC', type(e).__name__, str(e)[:200], site)
     return (status.get('s'), status.get('h'), body)
 
 
@@ -357,6 +364,16 @@ def check(prop, tier, args):
     known_bad = set()
     hostile = ['', 'number=', 'number=%00', 'number=%F0%9F%AF%B0', 'x=1&number=1&number=2', 'number=' + urllib.parse.quote('<script>alert(1)</script>"\'&'),
                'number=' + '1' * 5000, 'number=%ff%fe', 'NUMBER=1', 'number[]=1', '&&&=', 'number=%E2%80%A8']
+    # inputs on which other properties have listed findings (the application calls compact/format/is_valid/getters on them)
+    from ..report import load_known
+    for k_ in load_known():
+        w_ = k_.get('witness') or {}
+        x_ = w_.get('input')
+        if isinstance(x_, str) and 0 < len(x_) <= 64 and not w_.get('opts'):
+            q_ = 'number=' + urllib.parse.quote(x_)
+            if q_ not in hostile:
+                hostile.append(q_)
+    hostile += ['number=703', 'number=J76']
     fails = []
     for q in hostile:
         for ajax in (False, True):
@@ -396,8 +413,8 @@ def check(prop, tier, args):
         if r[0] == 'EXC' and r[1] in ('AttributeError', 'TypeError') and not ajax and nbad:
             explained += 1
             continue
-        key = 'native: %s' % (r[1] if r[0] == 'EXC' else r[0])
-        rep.refuted('C18/native/%s/%s' % (q[:40], ajax), 'online_check', key, 'request %r (ajax=%s) fails: %r' % (q[:60], ajax, r[:2]),
+        key = 'native: %s' % ('%s in %s' % (r[1], r[3]) if r[0] == 'EXC' and len(r) > 3 else r[1] if r[0] == 'EXC' else r[0])
+        rep.refuted('C18/native/%s/%s' % (q[:40], ajax), 'online_check', key, 'request %r (ajax=%s) fails: %r' % (q[:60], ajax, (r[:2] + r[3:4]) if r[0] == 'EXC' else r[:1]),
                     dict(query=q, ajax=ajax, real=[str(x)[:200] for x in r[:3]]), True,
                     lambda k: call_app(wsgi, k['witness']['query'], k['witness'].get('ajax', False))[0] != '200 OK')
     rep.add('C18/native-run', 'bounded', 'eval', time.time() - t0, detail='%d requests through the real application (%d failures explained by conversion findings)' % (n, explained))
